@@ -5,7 +5,8 @@ Long single-session runs of mixed request types interleaved with encrypted repli
 and set_keys() (accepted and refused) are recorded from real DES / AES sessions; TraceSession.tla (Props = {C14}) reads
 msgPrivacyParameters and msgFlags of every datagram: 8 octets, never seen before within the key installation,
 previous + 1 (DES: boots || 32-bit counter, AES: 64-bit counter), priv flag set, msgData an OCTET STRING, and the
-request's OID octets occur nowhere in the datagram."""
+request's OID octets occur nowhere in the datagram.  Four sessions cross the counter's wrap-around (positioned through the
+verif_set_salt hook): the salt after ff..ff is 00..00, still unique within the installation."""
 import json, random
 from vlib import trace, scripts, v3hist, tlc
 from vlib.report import Check
@@ -55,6 +56,17 @@ def run(tier):
         s = long_script(rng, per)
         a, b = v3hist.run_history(rec, std[cn], s, variant=i)
         runs.append((a, b, dict(cfgname=cn, n=per, seed=SEED, index=i)))
+    # counter wrap-around (DES: 32-bit, AES: 64-bit): the counter is positioned just below the wrap (verification hook) and the
+    # session goes on sending across it - with replies, refusals and timeouts in between
+    for i, cn in enumerate(["v3-md5-des", "v3-sha1-aes", "v3-sha1-des", "v3-md5-aes"]):
+        top = 2 ** 32 if "des" in cn else 2 ** 64
+        s = [{"a": "send", "n": 5}, {"a": "reply-enc"}, {"a": "set-salt", "v": top - 4 - i}]
+        for j in range(12):
+            s.append({"a": "send", "n": [5, 8, 40][(i + j) % 3]})
+            s.append({"a": ["reply-enc", "timeout", "reply-plain-report", "reply-enc"][(i + j) % 4]})
+        s += [{"a": "set-salt", "v": top - 1}, {"a": "send", "n": 8}, {"a": "send", "n": 5}, {"a": "reply-enc"}, {"a": "send", "n": 40}]
+        a, b = v3hist.run_history(rec, std[cn], s, variant=i)
+        runs.append((a, b, dict(cfgname=cn, n=0, seed=SEED, index=100 + i, wrap=True, script=s)))
     rec.close()
     nmsg = sum(1 for e in rec.events if e["ev"] == "Send" and not e.get("exc"))
     salts = set()
@@ -82,7 +94,7 @@ def run(tier):
                       "%s session %d: event %d %s %s" % (info["cfgname"], info["index"], idx - a, ev["ev"], ev.get("exc") or ""),
                       dict(info=info, events=rec.events[max(a, idx - 6):idx + 1]))
     chk.sample(dict(kind="session", info=runs[0][2], first_events=[{k: (x if k not in ("wire", "interp") else "...") for k, x in e.items()} for e in rec.events[runs[0][0]:runs[0][0] + 4]]))
-    chk.assumptions += ["2^32 / 2^64 messages are not executed: uniqueness beyond the run follows from the +1 step and the transmitted counter width"]
+    chk.assumptions += ["2^32 / 2^64 messages are not executed: the counter is positioned below the wrap-around through the cfg(gufo_snmp_verif) hook verif_set_salt and the run crosses it"]
     return chk.finish()
 
 
@@ -93,8 +105,11 @@ def replay(path):
     rng = random.Random(info["seed"])
     std = scripts.std_cfgs()
     rec = trace.Recorder("c14-replay")
-    for i in range(info["index"] + 1):
-        s = long_script(rng, info["n"])
+    if info.get("wrap"):
+        s = info["script"]
+    else:
+        for i in range(info["index"] + 1):
+            s = long_script(rng, info["n"])
     a, b = v3hist.run_history(rec, std[info["cfgname"]], s, variant=info["index"])
     v = trace.validate("TraceSession.tla", c11.trace_cfg(PROPS), rec.close(), timeout=3000)
     if v["accepted"] and not v["fails"]:
